@@ -157,16 +157,17 @@ def check_branches(case, ctx):
     H = case["n_hedges"]
     hedger2 = Hedger(IgnoreLast(objs["model"], H), list(objs["inputs"]) + ["prev_hedge"])
     eps = EPS[dtype_name(objs["dtype"])]
-    with torch.no_grad():
+    grad_on = case["sim_seed"] % 2 == 1  # training evaluates with autograd, pricing without
+    with torch.set_grad_enabled(grad_on):
         with ctx.sut("C03/branches/compute"):
-            h1 = hedger.compute_hedge(deriv, hedge=hedge)
-            h2 = hedger2.compute_hedge(deriv, hedge=hedge)
+            h1 = hedger.compute_hedge(deriv, hedge=hedge).detach()
+            h2 = hedger2.compute_hedge(deriv, hedge=hedge).detach()
             ctx.check(not hedger.inputs.of(deriv, hedger).is_state_dependent()
                       and hedger2.inputs.of(deriv, hedger2).is_state_dependent(),
                       "C03/branches/harness", "the two hedgers do not exercise the two branches")
-            p1, p2 = hedger.compute_pl(deriv, hedge=hedge), hedger2.compute_pl(deriv, hedge=hedge)
-            l1 = hedger.criterion(hedger.compute_portfolio(deriv, hedge=hedge), deriv.payoff())
-            l2 = hedger2.criterion(hedger2.compute_portfolio(deriv, hedge=hedge), deriv.payoff())
+            p1, p2 = hedger.compute_pl(deriv, hedge=hedge).detach(), hedger2.compute_pl(deriv, hedge=hedge).detach()
+            l1 = hedger.criterion(hedger.compute_portfolio(deriv, hedge=hedge), deriv.payoff()).detach()
+            l2 = hedger2.criterion(hedger2.compute_portfolio(deriv, hedge=hedge), deriv.payoff()).detach()
     if not (torch.isfinite(h1).all() and torch.isfinite(h2).all() and torch.isfinite(p1).all() and torch.isfinite(p2).all()):
         # e.g. a variance swap / log feature on a negative Vasicek rate: NaN by definition in both modes
         ctx.check(bool((torch.isfinite(h1) == torch.isfinite(h2)).all() and (torch.isfinite(p1) == torch.isfinite(p2)).all()),
@@ -180,7 +181,7 @@ def check_branches(case, ctx):
     # the model's pre-activation magnitude bounds the GEMM/GEMV discrepancy; hedges here are O(1..10)
     scale_h = 1.0 + max(float(h1.abs().max()), float(h2.abs().max()))
     if case["model"] in ("linear", "mlp"):
-        x = hedger.inputs.of(deriv, hedger).get(None)
+        x = hedger.inputs.of(deriv, hedger).get(None).detach()
         scale_h += float(x.abs().nan_to_num(0).max()) * 8
     tol_h = 64 * eps * scale_h
     dh = float((h1 - h2).abs().max())
@@ -247,7 +248,7 @@ def check_feedback(case, ctx):
         Tn = ul.spot.shape[1]
         model.H = H
         model.calls = []
-        with torch.no_grad():
+        with torch.set_grad_enabled(seed % 2 == 1):
             with ctx.sut("C03/feedback/compute_hedge"):
                 out = hedger.compute_hedge(deriv, hedge=hedge)
         if not ctx.check(len(model.calls) == Tn - 1, "C03/feedback/calls",
